@@ -13,7 +13,11 @@ Features == [cb : BOOLEAN, rl : BOOLEAN, passive : BOOLEAN, plugins : BOOLEAN]
 Strategies == {"round_robin", "least_connections", "weighted_round_robin", "ip_hash", "ip_hash_consistent"}
 
 SeqsUpTo(S, n) == UNION {[1..k -> S] : k \in 1..n}
-Cases(n, strategies, feats) == [faults : SeqsUpTo(Alphabet, n), strategy : strategies, f : feats]
+\* trip / eject with two faults, wait out the breaker timeout and the unhealthy window, then a fault
+\* on the half-open trial / freshly readmitted backend ("wait" is a pause of 1.2 s, not a request)
+Recovery == {<<a, a, "wait", b>> : a \in {"s500", "refuse", "reset_after_headers"}, b \in Alphabet}
+            \cup {<<a, a, "wait", b, "wait", b>> : a \in {"s500"}, b \in {"s500", "reset_after_headers", "short_body", "client_abort_down"}}
+Cases(n, strategies, feats) == [faults : SeqsUpTo(Alphabet, n) \cup Recovery, strategy : strategies, f : feats]
 
 BoundMs == 5500     \* backend_read 1 s + server write 2 s + dial/transport slack
 
@@ -24,5 +28,5 @@ Check(c, o) ==
   \o (IF o.probe # 200 THEN <<"ProbeAfterFaultsFailed">> ELSE <<>>)
   \o (IF o.second # 200 THEN <<"SecondProbeFailed">> ELSE <<>>)
   \o (IF ~o.gauges THEN <<"GaugeNotZero">> ELSE <<>>)
-  \o (IF Len(o.reqs) # Len(c.faults) THEN <<"HarnessIncomplete">> ELSE <<>>)
+  \o (IF Len(o.reqs) # Cardinality({i \in DOMAIN c.faults : c.faults[i] # "wait"}) THEN <<"HarnessIncomplete">> ELSE <<>>)
 =============================================================================
